@@ -20,10 +20,11 @@ def program(pid, nodes, start=1, end=8):
 
 SOURCE_KINDS = ("src", "timer", "fb")
 UNARY = ("pass", "add", "acc", "count", "delay", "echo")
-BINARY = ("sum2", "sumu", "sample", "sample2", "sampleu", "lsum", "lsumv")
+BINARY = ("sum2", "sumu", "sample", "sample2", "sampleu", "lsum", "lsumv", "tog")
 # sample2 / sampleu: sum2 / sumu whose second input is used passively (passive(port) at the call site)
 PASSIVE_USAGE = {"sample2": "sum2", "sampleu": "sumu", "psum2a": "sum2"}   # psum2a: the FIRST input is the passive one
 TERNARY = ("sum3",)
+QUAD = ("ltog",)          # two list inputs of two elements each; makes the second one passive / active at run time
 
 
 # --------------------------------------------------------------------------------------------- rendering
@@ -237,7 +238,7 @@ def gen_script(rng, horizon, maxlen=4, values=(1, 2, 3, 5, 7)):
 
 def random_program(rng, pid, max_nodes=6, horizon=7, kinds=None, allow_fb=True, start=None):
     """Random DAG over the vocabulary: 1-2 sources, compute nodes, 1-2 recorders; optionally one feedback loop."""
-    kinds = kinds or (UNARY + BINARY + TERNARY + TERNARY)
+    kinds = kinds or (UNARY + BINARY + TERNARY + TERNARY + QUAD + QUAD)
     nodes = []
     nsrc = rng.randint(1, 2)
     for _ in range(nsrc):
@@ -255,7 +256,9 @@ def random_program(rng, pid, max_nodes=6, horizon=7, kinds=None, allow_fb=True, 
     for _ in range(ncomp):
         kind = rng.choice(kinds)
         avail = list(range(1, len(nodes) + 1))
-        if kind in TERNARY:
+        if kind in QUAD:
+            nodes.append(node(kind, ins=[rng.choice(avail) for _ in range(4)]))
+        elif kind in TERNARY:
             a, b = rng.choice(avail), rng.choice(avail)
             c = rng.choice([a, b, rng.choice(avail)])      # often a repeated port: one producer feeding two inputs
             ins = [a, b, c]
